@@ -12,8 +12,11 @@ Hypothesis meth_pure : forall fs f args ret fs', mutating f = false -> meth fs f
 
 Lemma flat_var_pure : forall x, flat_var x = true -> pure_var mutating x = true.
 Proof.
-  induction x as [r|x' IH g|x' IH sel]; intros H; simpl in H; try discriminate; [reflexivity|].
-  change (pure_var mutating x' = true). auto.
+  induction x as [r|x' IH g|x' IH sel]; intros H; simpl in H; [reflexivity| |].
+  - change (pure_var mutating x' = true). auto.
+  - apply andb_prop in H. destruct H as [H Hs].
+    change (pure_var mutating x' && pure_expr mutating sel = true). rewrite (IH H).
+    destruct sel as [a| |]; try discriminate. destruct a as [c| | | | | |]; try discriminate. reflexivity.
 Qed.
 
 Lemma flat_pure :
@@ -86,7 +89,8 @@ Definition flat_example : list rule :=
   [{| rname := "Count"%string; rdesc := ""%string; rsal := 0;
       rwhen := EBin OAnd (EBin OLT (EAtom (AVar (fv "F" "I"))) (EAtom (AConst (CInt 3))))
                          (EParen true (EBin OEq (EAtom (AVar (fv "F" "S"))) (EAtom (AConst (CStr "stop")))));
-      rthen := [SAssign (fv "F" "I") AsAdd (EAtom (AConst (CInt 1)))] |};
+      rthen := [SAssign (fv "F" "I") AsAdd (EAtom (AConst (CInt 1)));
+                SAssign (VSel (fv "F" "Arr") (EAtom (AConst (CInt 1)))) AsSet (EBin OAdd (EAtom (AVar (VSel (fv "F" "Arr") (EAtom (AConst (CInt 0)))))) (EAtom (AVar (fv "F" "I"))))] |};
    {| rname := "Mark"%string; rdesc := ""%string; rsal := 5;
       rwhen := EBin OGTE (EAtom (AVar (fv "F" "I"))) (EAtom (AVar (VMember (fv "G" "Cfg") "Limit")));
       rthen := [SAssign (fv "F" "S") AsSet (EBin OAdd (EAtom (AVar (fv "F" "S"))) (EAtom (AConst (CStr "!"))));
@@ -100,7 +104,7 @@ Proof. reflexivity. Qed.
 (* … and it does something: on these facts the engine model runs five cycles, fires Count, Count, Mark, Count
    and ends at quiescence with F.I = 3 and F.S = "go!" *)
 Definition flat_facts : facts :=
-  [("F"%string, FPtr (Some (FStruct [("I"%string, FV (VInt I64 0)); ("S"%string, FV (VStr "go"))])));
+  [("F"%string, FPtr (Some (FStruct [("I"%string, FV (VInt I64 0)); ("S"%string, FV (VStr "go")); ("Arr"%string, FSlice [FV (VInt I64 10); FV (VInt I64 0)])])));
    ("G"%string, FPtr (Some (FStruct [("Cfg"%string, FPtr (Some (FStruct [("Limit"%string, FV (VInt I64 2))]))); ("Open"%string, FV (VBool true))])));
    ("N"%string, FV (VInt I64 1))].
 Definition flat_entries : list entry :=
